@@ -447,8 +447,8 @@ pub fn def() -> PropertyDef {
 		rule: "The real rustls-cert-gen binaries (ring and aws-lc-rs builds) are run with generated option sets: each key algorithm the build offers, 0..5 --san values (host names, IPv4/IPv6 literals, look-alikes such as 1.2.3 or 256.1.1.1), common/country/organisation strings incl. non-ASCII, both purpose flags, base names, output directories (existing, missing, nested, with spaces / non-ASCII). Valid: exit 0, exactly the four files, strict PEM, each key matches its certificate, requested key algorithm, CA is a CA with keyCertSign+cRLSign, SANs / CN / EKUs exactly as given, OpenSSL and webpki accept leaf -> CA. Invalid (non-printable country, non-ASCII SAN, --rsa / --ecdsa-p521 on ring): non-zero exit, no panic, no file written. Non-trivial = at least two non-default options.",
 		assumptions: vec!["OpenSSL and webpki path validation; verification time 2023-11-14", "option values never start with '-' (they would be parsed as flags)"],
 		subs: vec![
-			prop_sub("options", 400, 12_000, cli_case, check_cli),
-			prop_sub("colliding-base-names", 60, 1_000, collide_case, check_cli),
+			prop_sub("options", 1_600, 12_000, cli_case, check_cli),
+			prop_sub("colliding-base-names", 240, 1_000, collide_case, check_cli),
 		],
 	}
 }
